@@ -13,6 +13,7 @@
 (*      every c, names from a small set                                    *)
 (*   C  all triples of DANGEROUS components in (name, path[1], path[2])    *)
 (*   T  tar entry names: <= 3 components from the dangerous set            *)
+(*   U, V  alternative sources of one value;  W  colliding paths x padding *)
 (***************************************************************************)
 EXTENDS Paths, Json
 CONSTANTS TIER
@@ -64,7 +65,29 @@ FamV == {TX("V", l, <<<<l>>, <<l, l>>>>, 1, No8, <<No8, No8>>, [kind |-> k, v |-
             k \in {"name", "name8", "path", "path8", "files"}, v \in DupV, f \in {0, 1}, x \in {"none", "both"}}
         \cup {TX("V", n, <<<<a, b>>, <<l>>>>, 0, No8, <<No8, No8>>, NoDup, x) :
                  n \in {l, dd}, a \in DupV, b \in {l, dd}, x \in {"bcpad", "bcpad+attr", "both"}}
-Torrents == FamA \cup FamB \cup FamC \cup FamU \cup FamV
+\* W: COLLIDING PATHS x PADDING MARKS.  Two files whose raw paths differ but whose cleaned, joined paths are equal (every
+\* rule of the cleaner: "/" -> "_" against a literal "_", invalid byte -> U+FFFD against a literal U+FFFD or another invalid
+\* byte, trimming of > 255-byte names that differ only in the part cut out, "." / empty components dropped by the join),
+\* plain duplicates, near misses that must stay accepted; the colliding files adjacent or separated by a third file;
+\* every combination of attr "p" on the colliding files and BitComet padding names (K).  The driver parses every case with
+\* the pad flag on (metainfo.New, resume v3) and off (resume v1 / v2: marked files are real files).
+ColComp == { <<<<"L", "S", "L">>, <<"L", "X", "L">>, "sep">>, <<<<"S">>, <<"X">>, "sep">>, <<<<"U">>, <<"F">>, "utf8">>,
+             <<<<"U">>, <<"V">>, "utf8">>, <<<<"L", "U">>, <<"L", "V">>, "utf8">>, <<<<"R">>, <<"Q">>, "trim">>,
+             <<<<"Q">>, <<"R">>, "trim">>, <<l, l, "same">>, <<<<"K">>, <<"K">>, "same-bc">>, <<<<"K", "L">>, <<"K", "L">>, "same-bc">>,
+             <<<<"L", "S", "L">>, <<"L", "B", "L">>, "miss">>, <<<<"R">>, <<"B", "R">>, "miss">>, <<<<"K">>, <<"K", "L">>, "miss">>,
+             <<<<"L", "S", "K">>, <<"L", "X", "K">>, "sep">> }
+\* (path a, path b, kind) : the component pair in the last / a directory position, and join-level collisions
+ColPaths == UNION {{ <<<<c[1]>>, <<c[2]>>, c[3]>>, <<<<l, c[1]>>, <<l, c[2]>>, c[3]>>, <<<<c[1], l>>, <<c[2], l>>, c[3]>> } : c \in ColComp}
+            \cup { <<<<l, l>>, <<l, <<"D">>, l>>, "join">>, <<<<l, l>>, <<l, <<>>, l>>, "join">>, <<<<l>>, <<<<"D">>, l>>, "join">>,
+                   <<<<l, <<"K">>>>, <<l, <<"D">>, <<"K">>>>, "join">> }
+Attr2 == {<<0, 0>>, <<0, 1>>, <<1, 0>>, <<1, 1>>}
+TW(files, attr, ck) == [fam |-> "W", name |-> l, files |-> files, sess |-> 0, n8 |-> No8, f8 |-> [i \in 1 .. Len(files) |-> No8],
+                        dup |-> NoDup, extra |-> "none", attr |-> attr, ck |-> ck]
+FamW == {TW(<<p[1], p[2]>>, a, p[3]) : p \in ColPaths, a \in Attr2}
+        \cup {TW(<<p[1], <<l, l, l>>, p[2]>>, <<a[1], 0, a[2]>>, p[3]) : p \in ColPaths, a \in Attr2}
+        \cup (IF TIER = "quick" THEN {} ELSE {TW(<<p[2], p[1]>>, a, p[3]) : p \in ColPaths, a \in Attr2}
+                                              \cup {TW(<<p[1], p[2], p[1]>>, <<a[1], a[2], 0>>, p[3]) : p \in ColPaths, a \in Attr2})
+Torrents == FamA \cup FamB \cup FamC \cup FamU \cup FamV \cup FamW
 
 TarEntries == IF TIER = "quick" THEN UNION {[1 .. k -> DangerQ] : k \in 1 .. 3}
               ELSE UNION {[1 .. k -> Danger] : k \in 1 .. 2} \cup [1 .. 3 -> DangerQ]
@@ -74,11 +97,17 @@ B01(b) == IF b THEN 1 ELSE 0
 Pred(at) == LET t == Effective(at, TRUE) IN
            [acc_cur |-> B01(Accepts(t, "cur")), acc_fix |-> B01(Accepts(t, "fix")),
             conf |-> B01(ModelConfined(t, 1)), rm_cur |-> B01(ModelRemoveOK(t, 0, "cur"))]
+\* family W: acceptance and distinctness predicted for both parsing modes (pad on / off)
+PredW(x) == LET t == [name |-> x.name, files |-> x.files] IN
+            [acc_cur |-> B01(AcceptsP(t, x.attr, TRUE, "cur")), acc_fix |-> B01(AcceptsP(t, x.attr, TRUE, "fix")),
+             conf |-> B01(ModelConfined(t, 1)), rm_cur |-> 1,
+             acc_pad |-> B01(AcceptsP(t, x.attr, TRUE, "fix")), acc_nopad |-> B01(AcceptsP(t, x.attr, FALSE, "fix")),
+             real_pad |-> Cardinality(Real(t, x.attr, TRUE)), real_nopad |-> Cardinality(Real(t, x.attr, FALSE))]
 TarPred(e) == B01(TarAccepts(RootOf(UM), AsPath(e)))
 
 VARIABLE c
 Init == /\ c = Cardinality(Torrents) + Cardinality(TarEntries)
-        /\ \A x \in Torrents : PrintT("@@" \o ToJson([kind |-> "torrent", t |-> x, pred |-> Pred(x)]))
+        /\ \A x \in Torrents : PrintT("@@" \o ToJson([kind |-> "torrent", t |-> x, pred |-> IF x.fam = "W" THEN PredW(x) ELSE Pred(x)]))
         /\ \A e \in TarEntries : PrintT("@@" \o ToJson([kind |-> "tar", entry |-> e, pred |-> TarPred(e)]))
 Next == FALSE /\ UNCHANGED c
 Spec == Init /\ [][Next]_c
